@@ -51,6 +51,7 @@ type c18Reader struct {
 	fixed []byte // when set, every draw returns these bytes
 	n     int
 	draws []c18Draw
+	chunk int // when > 0, a Read hands out at most this many bytes (a reader may return short)
 }
 
 func (r *c18Reader) Read(p []byte) (int, error) {
@@ -64,6 +65,9 @@ func (r *c18Reader) Read(p []byte) (int, error) {
 		b = h[:]
 	}
 	r.n++
+	if r.chunk > 0 && len(p) > r.chunk {
+		p = p[:r.chunk]
+	}
 	n := copy(p, b)
 	for n < len(p) {
 		n += copy(p[n:], b)
@@ -244,6 +248,9 @@ func c18Exec(c c18Case) (keys []string, detail string) {
 		// one message of each kind while the source answers with the pattern: the ID is '_' + the
 		// v4 rendering whatever the leading hex digits are
 		rd := &c18Reader{fixed: c.Pattern}
+		if len(c.History) > 1 {
+			rd = &c18Reader{chunk: c.History[1]} // distinct answers, handed out a few bytes at a time
+		}
 		var id string
 		var err error
 		withReader(rd, func() { id, err = c18Build(world.SP(), c.History[0]) })
@@ -315,7 +322,7 @@ func c18Replay(raw json.RawMessage) ([]string, string) {
 }
 
 func c18Run(r *mc.Run) {
-	r.Rule = "(a) 258 sixteen-byte answers of the random source (all-zero, all-one, each single bit set, each single bit clear): uuid.NewV4().String() must be the canonical lowercase 8-4-4-4-12 rendering of the answer with exactly the version nibble = 4 and the variant bits = 10 forced and every other bit copied (the transformation is bitwise, so the 122 free bits are an injective image of the source); (a') each of the three message builders with every value 0..255 of the first source byte: the ID is '_' + the v4 rendering for every pair of leading hex digits; (b) every history of <= 3 (quick) / <= 4 (thorough) constructions over 3 builders x 2 SP instances, and every interleaving (unbounded) of two constructions on two goroutines for all 9 builder pairs x shared/separate SP, with a recording source handing out distinct answers: each ID = '_' + the v4 rendering of a 16-byte window of the bytes the source handed out, windows of different IDs never overlap (no source byte used twice), every ID matches the xs:ID-safe pattern, none repeats; plus one history of 300 (quick) / 5000 (thorough) constructions for repeats that need many messages. non-trivial = a message was built and its ID compared with the recorded draws; distinct = distinct case"
+	r.Rule = "(a) 258 sixteen-byte answers of the random source (all-zero, all-one, each single bit set, each single bit clear): uuid.NewV4().String() must be the canonical lowercase 8-4-4-4-12 rendering of the answer with exactly the version nibble = 4 and the variant bits = 10 forced and every other bit copied (the transformation is bitwise, so the 122 free bits are an injective image of the source); (a') each of the three message builders with every value 0..255 of the first source byte: the ID is '_' + the v4 rendering for every pair of leading hex digits; (a'') a source answering with short reads of 1, 3, 8 or 15 bytes; (b) every history of <= 3 (quick) / <= 4 (thorough) constructions over 3 builders x 2 SP instances, and every interleaving (unbounded) of two constructions on two goroutines for all 9 builder pairs x shared/separate SP, with a recording source handing out distinct answers: each ID = '_' + the v4 rendering of a 16-byte window of the bytes the source handed out, windows of different IDs never overlap (no source byte used twice), every ID matches the xs:ID-safe pattern, none repeats; plus one history of 300 (quick) / 5000 (thorough) constructions for repeats that need many messages. non-trivial = a message was built and its ID compared with the recorded draws; distinct = distinct case"
 	r.Assume("the unreplaced crypto/rand.Reader is the operating system's CSPRNG (Go's guarantee)")
 	// supporting, does not decide: the uuid package's imports
 	if f, err := parser.ParseFile(token.NewFileSet(), repoDir()+"/uuid/uuid.go", nil, parser.ImportsOnly); err == nil {
@@ -373,6 +380,22 @@ func c18Run(r *mc.Run) {
 			r.Transition(1)
 			r.Bucket("message-bits")
 			r.Nontrivial(fmt.Sprintf("message-bits%x/%d", pat[:1], builder))
+			for _, k := range keys {
+				r.Violation(k, detail, c)
+			}
+		}
+	}
+	// (a'') a source that answers with short reads (1, 3, 8, 15 bytes per call): every ID is still
+	// made of 16 source bytes
+	for _, chunk := range []int{1, 3, 8, 15} {
+		for builder := 0; builder < 3; builder++ {
+			c := c18Case{Kind: "message-bits", History: []int{builder, chunk}}
+			keys, detail := c18Exec(c)
+			r.Eval(1)
+			r.State(1)
+			r.Transition(1)
+			r.Bucket("short-reads")
+			r.Nontrivial(fmt.Sprintf("short-reads/%d/%d", chunk, builder))
 			for _, k := range keys {
 				r.Violation(k, detail, c)
 			}
